@@ -259,14 +259,18 @@ def run(ctx):
     fn = prog.fn(FUNNEL)
     ys = [n for n in walk_local(fn.node) if isinstance(n, ast.Expr) and isinstance(n.value, ast.Yield)]
     lazy_yields = 0
+    # by def-use: readers = locals assigned from PackedObjectReader(...); lazy streams = locals assigned from get_lazy_loose_stream(...)
+    reader_vars = {a.targets[0].id for a in walk_local(fn.node) if isinstance(a, (ast.Assign,)) and isinstance(a.targets[0], ast.Name) and isinstance(a.value, ast.Call) and norm(a.value.func) == 'PackedObjectReader'}
+    reader_vars |= {a.target.id for a in walk_local(fn.node) if isinstance(a, ast.AnnAssign) and isinstance(a.target, ast.Name) and isinstance(a.value, ast.Call) and norm(a.value.func) == 'PackedObjectReader'}
+    lazy_vars = {a.targets[0].id for a in walk_local(fn.node) if isinstance(a, ast.Assign) and isinstance(a.targets[0], ast.Name) and isinstance(a.value, ast.Call) and norm(a.value.func).endswith('get_lazy_loose_stream')}
     for y in ys:
-        if 'obj_reader' in norm(y):
+        if {x.id for x in ast.walk(y) if isinstance(x, ast.Name)} & reader_vars:
             lazy_yields += 1
             blk = getattr(y, '_parent', None)
             body = getattr(blk, 'body', [])
             idx = body.index(y) if y in body else -1
             nxt = body[idx + 1] if 0 <= idx < len(body) - 1 else None
-            if isinstance(nxt, ast.If) and 'lazy_loose_stream' in norm(nxt.test) and any(isinstance(c, ast.Call) and norm(c.func).endswith('close_stream') for c in ast.walk(nxt)):
+            if isinstance(nxt, ast.If) and ({x.id for x in ast.walk(nxt.test) if isinstance(x, ast.Name)} & lazy_vars) and any(isinstance(c, ast.Call) and norm(c.func).endswith('close_stream') for c in ast.walk(nxt)):
                 chk.ok(R2, FUNNEL, f'yield at line {y.lineno}', detail='lazy loose stream closed right after the consumer returns', nontrivial=False)
             else:
                 chk.bad(R2, FUNNEL, norm(y)[:80], 'the lazy loose stream handed to the consumer is not closed after the yield: one descriptor per compressed object read with seek() stays open',
@@ -305,7 +309,18 @@ def run(ctx):
     # ---------------------------------------------------------------- R4
     q = 'container:Container.add_streamed_objects_to_pack'
     f = prog.fn(q)
-    withs = [n for n in walk_local(f.node) if isinstance(n, ast.With) and any('stream' in norm(it.context_expr) and it.optional_vars is not None for it in n.items)]
+    # the context managers that open the input streams: names bound in the per-stream loop (element of the `stream_list` parameter, possibly wrapped)
+    sparam = next((p_ for p_ in f.params if p_ != 'self'), None)
+    cm_vars = {sparam}
+    changed = True
+    while changed:
+        changed = False
+        for a in walk_local(f.node):
+            if isinstance(a, ast.Assign) and isinstance(a.targets[0], ast.Name) and a.targets[0].id not in cm_vars \
+                    and {x.id for x in ast.walk(a.value) if isinstance(x, ast.Name)} & cm_vars:
+                cm_vars.add(a.targets[0].id)
+                changed = True
+    withs = [n for n in walk_local(f.node) if isinstance(n, ast.With) and any(isinstance(it.context_expr, ast.Name) and it.context_expr.id in cm_vars and it.optional_vars is not None for it in n.items)]
     chk.require(withs, f'{q}: `with stream_context_manager as stream` not found')
     for w in withs:
         var = next(it.optional_vars.id for it in w.items if isinstance(it.optional_vars, ast.Name))
@@ -382,7 +397,7 @@ def run(ctx):
         if isinstance(f.node, ast.Lambda):
             continue
         for n in walk_local(f.node):
-            if isinstance(n, ast.Call) and isinstance(n.func, ast.Attribute) and n.func.attr == 'decompress' and 'decompressor' in norm(n.func.value).lower():
+            if isinstance(n, ast.Call) and isinstance(n.func, ast.Attribute) and n.func.attr == 'decompress' and isinstance(n.func.value, (ast.Attribute, ast.Name)) and f.cls is not None and (f.cls.qualname.endswith('StreamDecompresser') or 'Decompresser' in f.cls.qualname):
                 ndec += 1
                 ml = n.args[1] if len(n.args) > 1 else next((k.value for k in n.keywords if k.arg == 'max_length'), None)
                 if ml is not None and not (isinstance(ml, ast.Constant) and ml.value in (0, None)):
